@@ -25,7 +25,7 @@ DTYPES = ("float32", "float64", "uint8")
 
 def REQUIRED(tier):
     return ["running_filter", "running:w>n", "running:even_w", "downsample_1d", "downsample_1d:factor==n", "downsample_2d", "downsample_2d_flat", "kernel_2d_flat",
-            "kernel_parallel", "overflow_probe", "detrend", "deredden", "ts_downsample", "block_downsample", "canary_audits", "input_unchanged_checks", "deredden_exact_after_fast", "detrend_long_series"]
+            "kernel_parallel", "overflow_probe", "detrend", "deredden", "ts_downsample", "block_downsample", "canary_audits", "input_unchanged_checks", "deredden_exact_after_fast", "detrend_long_series", "regime:2d_second_axis_over_4096"]
 
 
 def EXHAUSTIVE(tier):
@@ -46,6 +46,8 @@ def cases(tier, seed):
         yield {"kind": "detrend_long", "seed": int(seed) + 2, "ns": [1 << 20, 1664511, 1664513, 5000000, 12000000]}
     for i in range(4):
         yield {"kind": "ds_large", "seed": int(seed), "i": i}
+    for d1, d2 in ((3, 5000), (2, 9001), (6, 4099)):     # long second axis (a block of thousands of samples), small non-dyadic factors
+        yield {"kind": "ds2d_big", "d1": d1, "d2": d2, "seed": int(seed), "facs": [[1, 3], [d1, 2], [1, 7], [2, 5], [d1, 4], [1, 10]], "wide": True}
     yield {"kind": "compose", "seed": int(seed)}
     if tier == "thorough":
         rng = np.random.default_rng([seed, 1414])
@@ -210,7 +212,7 @@ def _ds2d(case, ctx, d2s=None):
                 a[...] = 255
                 ctx.count("overflow_probe")
             a64 = a.astype(np.float64)
-            facs = list(itertools.product(range(1, d1 + 1), range(1, d2 + 1))) if not d2s else [(int(rng.integers(1, d1 + 1)), int(rng.integers(1, d2 + 1))) for _ in range(6)]
+            facs = [tuple(f) for f in case["facs"]] if case.get("facs") else list(itertools.product(range(1, d1 + 1), range(1, d2 + 1))) if not d2s else [(int(rng.integers(1, d1 + 1)), int(rng.integers(1, d2 + 1))) for _ in range(6)]
             for f1, f2 in facs:
                 m1, m2 = d1 // f1, d2 // f2
                 blocks = a64[: m1 * f1, : m2 * f2].reshape(m1, f1, m2, f2)
@@ -261,6 +263,8 @@ def _ds2d(case, ctx, d2s=None):
 
 
 def _ds2d_big(case, ctx):
+    if case.get("wide"):
+        ctx.count("regime:2d_second_axis_over_4096")
     _ds2d(case, ctx, d2s=[case["d2"]])
 
 
@@ -373,7 +377,7 @@ def _compose(case, ctx):
         x64 = x.astype(np.float64)
         ts = TimeSeries(x, hdr(n))
         for method in ("mean", "median"):
-            for wsec in (0.001, 0.002, 0.003, 0.01, 0.05, 1.0):
+            for wsec in (0.001, 0.002, 0.003, 0.01, 0.05, 0.103, 0.15, 0.2, 1.0):
                 w = round(wsec / 1e-3)
                 ctx.evaluated(); ctx.count("deredden")
                 one = {"kind": "compose", "seed": case["seed"], "n": n, "method": method, "window_s": wsec}
